@@ -26,13 +26,16 @@ CLASSES = [            # (name, [(field, type)]); type in any | int | float | st
     ('A', [('x', 'any'), ('y', 'any')]),
     ('B', [('p', 'int'), ('q', 'float'), ('r', 'str')]),
     ('C', [('items', 'list_int'), ('z', 'any')]),
-    ('D', [('x', 'any'), ('y', 'any')]),      # same fields as A: only the class tells them apart
+    ('D', [('x', 'any'), ('y', 'any')]),      # `class D(A)`: a subclass of A that adds no fields
     ('E', [('u', 'any'), ('w', 'any')]),      # `_on_bound` derives state (`_sig`) from the fields
     ('F', [('a', 'float_ge0'), ('b', 'float_le0'), ('c', 'int_ge0'), ('d', 'int_le0')]),   # bounds exactly 0
     ('G', [('units', 'any'), ('act', 'any')]),  # pg.symbolize of a regular class: `==` is identity, pg.eq structural
     ('H', [('x', 'any'), ('y', 'any')]),        # pg.Object with use_symbolic_comparison = False (`==` is identity)
     ('L', [('xs', 'list_int_max1'), ('ys', 'list_int_min2')]),   # size-constrained list fields
+    ('M', [('x', 'any'), ('y', 'any')]),      # `class M(A)`: a sibling of D (same fields, another subclass of A)
 ]
+SUBCLASS_OF = {3: 0, 9: 0}                     # class index -> base class index
+FAMILY = [0, 3, 9]                             # A and its field-less subclasses: only the class tells them apart
 SIZES = {'list_int_max1': (0, 1), 'list_int_min2': (2, None)}   # min_size, max_size
 SYMBOLIZED = {6}
 IDENTITY_EQ = {7}
@@ -712,8 +715,10 @@ class TmplGen:
     if cand_ty == 'any' and r.chance(0.3):
       # a twin candidate: same fields and content, other class (A <-> D)
       for c in list(cands):
-        if c[0] == 'obj' and c[1] in (0, 3) and not all_tags(c):
-          cands.insert(r.below(len(cands) + 1), ['obj', 3 - c[1]] + c[2:])
+        if c[0] == 'obj' and c[1] in FAMILY and not all_tags(c):
+          # same fields and content, another class of the family (base before / after a subclass, siblings)
+          for other in r.sample([x for x in FAMILY if x != c[1]], r.randint(1, 2)):
+            cands.insert(r.below(len(cands) + 1), ['obj', other] + c[2:])
           break
     if one:
       return ['choice', self.fresh_tag(), True, 1, cands, True, False]
@@ -751,7 +756,7 @@ class TmplGen:
     if depth <= 0:
       return self.floatv() if r.chance(0.07) else self.const('any')
     k = r.weighted([(3, 'const'), (3, 'dict'), (2, 'list'), (2, 'A'), (1, 'B'), (1, 'C'), (1, 'D'), (2, 'E'),
-                    (1, 'F'), (2, 'G'), (2, 'H'), (1, 'L'), (5, 'oneof'), (3, 'manyof'), (1, 'floatv'), (2, 'custom')])
+                    (1, 'F'), (2, 'G'), (2, 'H'), (1, 'L'), (1, 'M'), (5, 'oneof'), (3, 'manyof'), (1, 'floatv'), (2, 'custom')])
     if k == 'const':
       return self.const('any')
     if k == 'custom':
@@ -774,7 +779,7 @@ class TmplGen:
       return ['dict', keys, [self.gen(depth - 1) for _ in keys]]
     if k == 'list':
       return ['list', [self.gen(depth - 1) for _ in range(r.randint(0, 3))]]
-    ci = 'ABCDEFGHL'.index(k)
+    ci = 'ABCDEFGHLM'.index(k)
     fields = CLASSES[ci][1]
     return ['obj', ci, [f for f, _ in fields], [self.gen(depth - 1, fty) for _, fty in fields]]
 
@@ -788,7 +793,7 @@ class TmplGen:
     elif k < 6:
       t = ['list', [self.gen(depth) for _ in range(r.randint(1, 3))]]
     elif k < 8:
-      ci = r.below(9)
+      ci = r.below(10)
       fields = CLASSES[ci][1]
       t = ['obj', ci, [f for f, _ in fields], [self.gen(depth, fty) for _, fty in fields]]
     else:
@@ -885,6 +890,9 @@ def _setup_pg():
           self.act = act
       _Plain.__name__ = _Plain.__qualname__ = 'C13Plain%s' % name
       classes.append(pg.symbolize(_Plain))
+      continue
+    if ci in SUBCLASS_OF:
+      classes.append(type('C13%s' % name, (classes[SUBCLASS_OF[ci]],), body))
       continue
     if ci in IDENTITY_EQ:
       body['use_symbolic_comparison'] = False
@@ -1073,30 +1081,38 @@ def atom_to_py(a):
   return to_float(a[1], a[2])
 
 
-def to_pg(t, root=True):
-  """JSON template / value -> pyglove value."""
+def to_pg(t, root=True, memo=None):
+  """JSON template / value -> pyglove value. `memo` (tag -> placeholder object) makes a second call hand the
+  *same* placeholder objects to freshly built containers (binding histories on one placeholder object)."""
   P = _setup_pg()
   pg = P['pg']
   k = t[0]
   if k == 'const':
     return atom_to_py(t[1])
   if k == 'dict':
-    return pg.Dict({key: to_pg(c, False) for key, c in zip(t[1], t[2])})
+    return pg.Dict({key: to_pg(c, False, memo) for key, c in zip(t[1], t[2])})
   if k == 'list':
-    return pg.List([to_pg(c, False) for c in t[1]])
+    return pg.List([to_pg(c, False, memo) for c in t[1]])
   if k == 'obj':
-    return P['classes'][t[1]](**{key: to_pg(c, False) for key, c in zip(t[2], t[3])})
-  if k == 'floatv':
-    return pg.floatv(to_float(*t[2]), to_float(*t[3]), hints=t[1])
-  if k == 'custom':
-    return make_custom(t[1], t[2])
+    return P['classes'][t[1]](**{key: to_pg(c, False, memo) for key, c in zip(t[2], t[3])})
   if k == 'ref':
     return pg.hyper.reference(t[1])
-  _, tag, one, kk, cands, distinct, sorted_ = t
-  cs = [to_pg(c, False) for c in cands]
-  if one:
-    return pg.oneof(cs, hints=tag)
-  return pg.manyof(kk, cs, distinct=distinct, sorted=sorted_, hints=tag)
+  if memo is not None and t[1] in memo:
+    return memo[t[1]]
+  if k == 'floatv':
+    ph = pg.floatv(to_float(*t[2]), to_float(*t[3]), hints=t[1])
+  elif k == 'custom':
+    ph = make_custom(t[1], t[2])
+  else:
+    _, tag, one, kk, cands, distinct, sorted_ = t
+    cs = [to_pg(c, False, memo) for c in cands]
+    if one:
+      ph = pg.oneof(cs, hints=tag)
+    else:
+      ph = pg.manyof(kk, cs, distinct=distinct, sorted=sorted_, hints=tag)
+  if memo is not None:
+    memo[t[1]] = ph
+  return ph
 
 
 class Unrepresentable(Exception):
@@ -1336,10 +1352,18 @@ class C13(Prop):
     if W is not None:
       wset = set(W)
       where = lambda x: x.hints in wset
+    memo = {}
     try:
-      hv = to_pg(case['tmpl'])
+      hv = to_pg(case['tmpl'], memo=memo)
     except (TypeError, ValueError, KeyError) as e:
-      return {'construct': err_name(e)}
+      # A rejected binding, then a retry with the SAME placeholder objects (fresh containers): the second
+      # attempt must be judged like a fresh one.
+      first = err_name(e)
+      try:
+        to_pg(case['tmpl'], memo=memo)
+      except (TypeError, ValueError, KeyError) as e2:
+        return {'construct': first, 'retry': err_name(e2)}
+      return {'construct': first, 'retry': 'accepted'}
     if custom_in_typed_slot(case['tmpl']):
       return {'construct': 'custom-in-typed-slot'}
     edited = None
@@ -1484,6 +1508,8 @@ class C13(Prop):
         _no_timeout()
         obs['iter_error'] = err_name(e)
     obs['n_all'] = n_all
+    obs['rebind_problems'] = self.bind_history(edited if edited is not None else case['tmpl'], hv)
+    obs['rebind_over_rejected'] = self._over_rejected
     if edited is not None:
       obs['edited_tmpl'] = edited
     if case.get('trace'):
@@ -1588,6 +1614,63 @@ class C13(Prop):
         problems.append('decode-not-a-function: decode after an in-place edit raised %s' % err_name(e))
     return {'problems': problems, 'edits': n_edits}
 
+  # fields a placeholder that is already bound is offered to next: (class index, field, other fields)
+  BIND_TARGETS = [
+      (1, 'p', {'q': 0.5, 'r': 's'}), (1, 'q', {'p': 1, 'r': 's'}), (1, 'r', {'p': 1, 'q': 0.5}),
+      (5, 'a', {'b': 0.0, 'c': 0, 'd': 0}), (5, 'c', {'a': 0.0, 'b': 0.0, 'd': 0}),
+      (2, 'items', {'z': 0}), (8, 'xs', {'ys': [1, 2]}), (8, 'ys', {'xs': []}), (0, 'x', {'y': 0}),
+  ]
+
+  def bind_history(self, tj, hv):
+    """A successful binding followed by bindings of the SAME placeholder object to other fields (compatible
+    and incompatible ones): each attempt must come out as for a freshly made, equal placeholder."""
+    P = _setup_pg()
+    pg = P['pg']
+    found = []
+    self._over_rejected = False
+
+    def walk(j, v):
+      if len(found) >= 2:
+        return
+      if j[0] == 'obj':
+        for key, c in zip(j[2], j[3]):
+          x = v.sym_getattr(key)
+          if c[0] in ('choice', 'floatv') and not all_tags(['list', c[4]] if c[0] == 'choice' else ['const', ['none']]):
+            found.append((c, x))
+          walk(c, x)
+      elif j[0] == 'dict':
+        for key, c in zip(j[1], j[2]):
+          walk(c, v.sym_getattr(key))
+      elif j[0] == 'list':
+        for i, c in enumerate(j[1]):
+          walk(c, v[i])
+    walk(tj, hv)
+    problems = []
+
+    def outcome(ph, ci, field, others):
+      try:
+        o = P['classes'][ci](**dict(others, **{field: ph}))
+        return 'ok:' + json.dumps(spec_of_pg(pg.template(o).dna_spec()))
+      except (TypeError, ValueError, KeyError):
+        return 'rejected'          # (which error class reports the rejection is not part of the judgement)
+    for cj, ph in found:
+      for ci, field, others in self.BIND_TARGETS:
+        got = outcome(ph, ci, field, others)
+        want = outcome(to_pg(cj), ci, field, others)
+        if got == 'rejected' and want != 'rejected':
+          # The `already bound` shortcut of custom_apply judges the two value specs, not the candidates: it may
+          # refuse what a fresh placeholder would be granted. Safe w.r.t. the property (nothing is decoded into
+          # a field that rejects it): recorded as an observation only.
+          self._over_rejected = True
+          continue
+        if got != want:
+          # (a List field with a larger min_size accepts what is bound to a List field with a smaller one:
+          #  List._is_compatible ignores min_size, finding F09b of C04, pinned by value_specs_test.py:1121)
+          kind = 'list-min-size' if (ci, field) == (8, 'ys') and got.startswith('ok') else 'other'
+          problems.append('%s: binding the already bound placeholder %s to %s.%s: %s, a fresh equal placeholder: %s'
+                          % (kind, json.dumps(cj)[:120], CLASSES[ci][0], field, got[:60], want[:60]))
+    return sorted(problems, key=lambda x: x.startswith('list-min-size'))
+
   def hook_sweep_ok(self, cid):
     """first_dna / next_dna / random_dna of the custom hyper stay within its own genomes, and through the
     DNASpec (`CustomDecisionPoint.first_dna/next_dna/random_dna`) give what the hooks give."""
@@ -1690,6 +1773,11 @@ class C13(Prop):
 
   # -- the property itself ------------------------------------------------------------------
   def oracle(self, case, out):
+    if out.get('retry') == 'accepted':
+      return {'signature': 'failed-bind-leaves-placeholder-bound',
+              'what': 'constructing the template was rejected (%s); constructing it again with the same placeholder '
+                      'objects was accepted: the failed binding left its value spec on the placeholder'
+                      % out.get('construct')}
     if out.get('construct') != 'ok':
       return None
     t, W = case['tmpl'], case['where']
@@ -1717,6 +1805,9 @@ class C13(Prop):
                 'what': 'decode(%s), then %s' % (json.dumps(rec['dna']), '; '.join(shared))}
     if not obs['unchanged']:
       return {'signature': 'template-modified', 'what': '; '.join(obs['notes'][:3])}
+    if obs.get('rebind_problems'):
+      return {'signature': 'second-bind-not-judged-like-fresh:' + obs['rebind_problems'][0].split(':')[0],
+              'what': '; '.join(obs['rebind_problems'][:2])}
     if not obs.get('hook_sweeps_ok', True):
       return {'signature': 'custom-sweep-hooks', 'what': 'first_dna / next_dna / random_dna through the DNASpec '
               'do not reproduce the hooks of the custom hyper'}
@@ -1800,6 +1891,8 @@ class C13(Prop):
 
   def describe(self, case, out):
     h = ['construct:' + str(out.get('construct'))]
+    if out.get('retry'):
+      h.append('rejected-bind-then-retry:' + ('rejected again' if out['retry'] != 'accepted' else 'ACCEPTED'))
     t, W = case['tmpl'], case['where']
     st = tmpl_stats(t, {})
     h.append('depth:%d' % st.pop('depth', 0))
@@ -1826,6 +1919,8 @@ class C13(Prop):
                         else '<=100' if m['size'] <= 100 else '>100'))
     if 'trace' in m:
       h.append('dynamic-evaluation-traced')
+    if out['obs'].get('rebind_over_rejected'):
+      h.append('second-bind-refused-although-fresh-accepted(observation)')
     if any(o.get('history') and o['history']['edits'] for o in out['obs']['per_dna']):
       h.append('three-step-history(with in-place edit)')
     elif any(o.get('history') for o in out['obs']['per_dna']):
